@@ -117,6 +117,7 @@ def correspond(unit, n, seed, rep, biased=False, label=None, check_model=True):
     res["samples"] = [{"case": cases[i], "impl": outs[i]} for i in range(min(2, len(cases)))]
     res["wall_s"] = round(time.time() - t0, 2)
     rep.cov["evaluations"] += len(cases)
+    rep.cov["programs_compared"] = rep.cov.get("programs_compared", 0) + len(cases)     # each case: two executions compared
     rep.cov["distinct_nontrivial"] += res["nontrivial"]
     rep.cov["samples"] += res["samples"][:1]
     rep.notes.setdefault("correspondence", {})[label or unit.name + ("/biased" if biased else "")] = {
